@@ -58,7 +58,7 @@ def decorate(rng, text):
             if out and out[-1].rstrip().endswith(";") and rng.random() < 0.5:
                 out[-1] = out[-1] + " " + l
                 continue
-            l = " " * rng.randint(1, 6) + l
+            l = (" " * rng.randint(1, 6) if rng.random() < 0.6 else "\t" * rng.randint(1, 2)) + l
         out.append(l)
         if rng.random() < 0.15:
             out.append("")
